@@ -6,6 +6,7 @@ func init() {
 	const v = ".../verifier"
 	const tp = ".../verifier/trustpolicy"
 	const sig = "github.com/notaryproject/notation-core-go/signature"
+	const fw = "github.com/notaryproject/notation-plugin-framework-go/plugin"
 	Register("C01", []Target{
 		// required user metadata (clause 9)
 		{Pkg: v, Func: "verifyUserMetadata", NonNil: true},
@@ -33,11 +34,22 @@ func init() {
 		// (method call on an error value, verifier/verifier.go:249) and reflect.DeepEqual(any, any) (:257)
 		{Pkg: tp, Func: "(*OCIDocument).GetApplicableTrustPolicy", Oracle: true},
 		{Pkg: v, Func: "(*verifier).SkipVerify"},
-		// The entry points. Refused, kept as documentation of what is outside the subset:
-		// verifier.Verify / VerifyBlob: the local &VerificationOutcome{} is handed to processSignature, which writes
-		// through it (verifier.go:379/382, 296/298); notation.VerifyBlob / getDescriptorFunc: depend on
-		// addUserMetadataToDescriptor; notation.Verify: registry.Repository interface (notation.go:479), callback :541
+		// ---- the entry point verifier.Verify, end to end (theorems: coq/props/C01_VerifyE2E.v) ----
+		// processSignature is the ONE call that leaves Verify besides the policy selection and json.Unmarshal: an
+		// oracle that takes the outcome Verify built and returns the outcome it left (OutParams), quantified in
+		// every theorem; C02 owns its body (targets_c02.go, C02_gen_processSignature_is_model) and
+		// props/C01_VerifyE2E_C02.v instantiates the oracle with C02's generated function.
+		{Pkg: "crypto/x509", Type: "Certificate", Opaque: true, Views: map[string]string{"Subject.String()": "string", "Raw": "list Z"}},
+		{Pkg: fw, Type: "VerifyPlugin", Opaque: true, Nilable: true},
+		{Pkg: "github.com/notaryproject/notation-core-go/revocation", Type: "Validator", Nilable: true},
+		{Pkg: "github.com/notaryproject/notation-core-go/revocation", Type: "Revocation", Nilable: true},
+		{Pkg: ".../plugin", Type: "Manager", Opaque: true, Nilable: true},
+		{Pkg: v, Func: "(*verifier).processSignature", Oracle: true, OutParams: []string{"outcome"}},
+		{Pkg: "encoding/json", Func: "Unmarshal", Oracle: true, OutParams: []string{"v"}},
 		{Pkg: v, Func: "(*verifier).Verify"},
+		// Refused, kept as documentation of what is outside the subset:
+		// notation.VerifyBlob / getDescriptorFunc: depend on addUserMetadataToDescriptor; notation.Verify is C10's
+		// (targets_c10.go)
 		{Pkg: v, Func: "(*verifier).VerifyBlob"},
 		{Pkg: "...", Func: "VerifyBlob"},
 		{Pkg: "...", Func: "getDescriptorFunc"},
